@@ -22,6 +22,8 @@
 (*            reassociation: at most 8 units of n * eps * sum|x_i y_i|.                *)
 (*   pardot_inf (strictly positive finite data whose exact sum overflows) every call  *)
 (*            returns +inf: up to reassociation nothing else is possible.              *)
+(*   pardot_z (exact data whose products are signed zeros) the value is +0.0 bit for  *)
+(*            bit: the definition accumulates from +0.0.                               *)
 (* The chunk formula itself is not demanded (any in-order partition gives these        *)
 (* values).  The observed worker count is a fact about the environment, not an output  *)
 (* of the code: whether the affinity produced the requested count is accounted for by  *)
@@ -40,6 +42,7 @@ Dot(x, y) == DotFrom(x, y, 1)
 
 \* (aliased calls on exact data are run once: their repetition is the two-object call `two`)
 PlusInf == "7ff0000000000000"
+PlusZeroBits == "0000000000000000"
 Repeatable(e) == Has(e, "r2") => (e.r1 = e.r2 /\ e.r2 = e.r3)
 WellFormed(e) == e.nt >= 1 /\ e.len >= 0
 ExactValue(e) == IF Has(e, "x")
@@ -58,6 +61,14 @@ Explained(e) ==
     [] e.op = "pardot_inf" -> /\ ~e.panic /\ WellFormed(e) /\ e.allpos /\ e.prodfinite /\ e.nbig >= 2
                               /\ e.r1 = PlusInf /\ e.r2 = PlusInf /\ e.r3 = PlusInf /\ e.d = PlusInf
                               /\ (Has(e, "a1") => e.a1 = PlusInf /\ e.ad = PlusInf)
+    \* exact data whose products are signed zeros (npos of them +0.0, nneg of them -0.0) and at most one non-zero product `val`:
+    \* the sequential definition accumulates from +0.0 and +0.0 + (-0.0) = +0.0, so the value is +0.0 - or exactly val -
+    \* as a BIT PATTERN, for the three repetitions and the sequential dot; the aliased call x.dot_f64(&x) (squares of signed
+    \* zeros and small integers: exact) is bit-identical to x.dot(&x)
+    [] e.op = "pardot_z" -> /\ ~e.panic /\ WellFormed(e) /\ e.npos + e.nneg + e.nnon = e.len /\ e.nnon <= 1
+                            /\ e.r1 = e.r2 /\ e.r2 = e.r3 /\ e.r1 = e.d
+                            /\ e.a1 = e.ad
+                            /\ IF e.nnon = 0 THEN e.r1 = PlusZeroBits ELSE e.ri = e.val /\ e.val # 0
     [] OTHER -> FALSE
 
 Init == l = 1 /\ TLCSet(1, 0)
